@@ -7,6 +7,7 @@ package main
 // change) therefore leaves them as they were.
 
 import (
+	"fmt"
 	"go/token"
 	"go/types"
 )
@@ -83,11 +84,28 @@ func (x *Exec) yieldEffect(st *State, in interface{ Pos() token.Pos }) {
 					continue
 				}
 				cn, srt, _ := x.fieldComp(h.ownerT, k)
-				keeps = append(keeps, keep{cn, srt, h.owner, sx("select", x.heapGet(st, cn, srt), h.owner)})
+				fv := sx("select", x.heapGet(st, cn, srt), h.owner)
+				keeps = append(keeps, keep{cn, srt, h.owner, fv})
+				if mt, ok := s.Field(k).Type().Underlying().(*types.Map); ok {
+					// the entries of a protected map are protected with it (one level)
+					mref := x.define(x.fresh("heldmap"), "Int", fv)
+					has, val, ln, hs, vs := x.mapComps(mt)
+					keeps = append(keeps, keep{has, hs, mref, sx("select", x.heapGet(st, has, hs), mref)})
+					keeps = append(keeps, keep{val, vs, mref, sx("select", x.heapGet(st, val, vs), mref)})
+					keeps = append(keeps, keep{ln, "(Array Int Int)", mref, sx("select", x.heapGet(st, ln, "(Array Int Int)"), mref)})
+				}
 			}
 		}
 	}
-	x.unknownEffect(st, in.Pos())
+	if x.fc != nil && x.fc.Opts["yields"] != "" {
+		// `opt yields`: the function is declared to contain blocking operations; what other
+		// goroutines do meanwhile is not this function's effect (no frame obligation), and
+		// callers apply the same yield at the call
+		x.havocHeapAll(st)
+		x.havocTop(st)
+	} else {
+		x.unknownEffect(st, in.Pos())
+	}
 	for _, k := range keeps {
 		hv := x.heapGet(st, k.cn, k.srt)
 		st.heap[k.cn] = x.define(x.fresh(k.cn), k.srt, sx("store", hv, k.ref, k.old))
@@ -95,4 +113,26 @@ func (x *Exec) yieldEffect(st *State, in interface{ Pos() token.Pos }) {
 	if len(keeps) > 0 {
 		x.assumed["fields protected by a monitor that the goroutine holds are unchanged across its own blocking channel operations (lock discipline of the declared monitor)"] = true
 	}
+}
+
+// holdAtEntry: `opt heldmu <field>` -- the caller holds the receiver's mutex <field> for the
+// whole call (a *Locked helper). The declared monitor is held from entry on.
+func (x *Exec) holdAtEntry(st *State) {
+	if x.fc == nil || x.fc.Opts["heldmu"] == "" || len(x.fn.Params) == 0 {
+		return
+	}
+	rp := x.fn.Params[0]
+	ownerT := deref(rp.Type())
+	named, _ := ownerT.(*types.Named)
+	if named == nil || named.Obj().Pkg() == nil {
+		x.errorf("opt heldmu: receiver is not a named struct")
+		return
+	}
+	mon := x.L.Monitors[named.Obj().Pkg().Path()+"."+named.Obj().Name()+"."+x.fc.Opts["heldmu"]]
+	if mon == nil {
+		x.errorf("opt heldmu %s: no monitor declared for %s", x.fc.Opts["heldmu"], named.Obj().Name())
+		return
+	}
+	st.holdMon(heldMon{mon: mon, owner: x.vals[rp].T, ownerT: ownerT})
+	x.assumed[fmt.Sprintf("%s: every caller holds %s.%s for the whole call (opt heldmu; the callers under contract are checked to hold it at the call site when they assert held(...))", x.short, named.Obj().Name(), mon.Mu)] = true
 }
